@@ -115,6 +115,10 @@ def run(chk):
             for fnd in r.findings:
                 r5.fail("via-" + fnd.key, "a stored value does not come back: " + fnd.msg, file=fnd.file, line=fnd.line)
     r5.ok("serializer writer/reader tables and the COMPRESSED flag decision agree (%d obligations of C15.R2/R3/R5 re-checked)" % n_sub)
+    # the value block is delivered as sent however the reply is cut into pieces (the sized reader's segmentation rows)
+    from . import rules_C03
+
+    report.include_rules(chk, r5, rules_C03, ("C03.R6",), "a value comes back byte for byte however the reply is cut into received pieces")
     # through FallbackClient a read returns the first cache's answer, not a merge in which an older cache's copy wins
     from . import rules_C18
 
